@@ -11,7 +11,7 @@ from .util import same_class, self_obj
 
 APP = "bellows.zigbee.application"
 NAMED = "bellows.types.named"
-VERSIONS = list(range(4, 15))
+from ..su import VERSIONS  # noqa: E402  (shared list, filled from EZSP._BY_VERSION)
 
 # role tables over the two naming conventions (frozen; a field name outside them is an analysis error)
 ROLES_INCOMING = {"type": "TYPE", "messagetype": "TYPE", "apsframe": "APS", "lasthoplqi": "LQI", "lqi": "LQI", "lasthoprssi": "RSSI",
